@@ -123,4 +123,33 @@ theorem pixToRef_injective (g : Geo) (hg : g.nondegenerate) (c r c' r' : Int) (h
   · have : (r : Rat) = r' := by linear_combination hr
     exact_mod_cast this
 
+/-- the regenerated z logic of `compute_plane_position_tiled_full`: both given, neither given, exactly one given -/
+theorem planePositionZ_eq (si : Int) (sbs : Rat) :
+    planePositionZ (some si) (some sbs) = .ok (((si - 1 : Int) : Rat) * sbs) ∧ planePositionZ none none = .ok 0 ∧
+    planePositionZ (some si) none = .error .type ∧ planePositionZ none (some sbs) = .error .type := by
+  refine ⟨?_, ?_, ?_, ?_⟩ <;> simp [planePositionZ]
+
+/-- the model of `compute_plane_position_tiled_full` computes its z origin with the regenerated expression -/
+theorem planePositionTiledFull_uses_z (ri ci tr tc : Int) (g : Geo) (z3d : Option (Int × Rat)) :
+    planePositionTiledFull ri ci tr tc g z3d =
+      (match planePositionOffsets ri ci tr tc with
+       | .error e => .error e
+       | .ok (cIdx, rIdx, cPos, rPos) =>
+         match planePositionZ (z3d.map Prod.fst) (z3d.map Prod.snd) with
+         | .error e => .error e
+         | .ok zoff =>
+           let p := pixToRef { g with oz := zoff } cIdx rIdx
+           .ok (cPos, rPos, p.1, p.2.1, p.2.2)) := by
+  unfold planePositionTiledFull
+  cases planePositionOffsets ri ci tr tc with
+  | error e => rfl
+  | ok v =>
+    obtain ⟨cIdx, rIdx, cPos, rPos⟩ := v
+    cases z3d with
+    | none => simp [(planePositionZ_eq 0 0).2.1]
+    | some z =>
+      obtain ⟨si, sbs⟩ := z
+      simp [(planePositionZ_eq si sbs).1]
+
+
 end HdVerif.TilingLemmas
